@@ -25,7 +25,7 @@ RULE = ('dev: case = (tree, walk setting, script of (step, action)); non-trivial
         'changed the tree or the walk; states = distinct (tree, setting, script) executions; traces = executions checked against the '
         'continuation reference')
 ASSUMPTIONS = ['yielded nodes are kept referenced (no id reuse)', 'horizon 6 x (initial + inserted nodes) yields']
-BOUNDS = {'quick': '17 trees x 19 settings x all 1-action scripts; 2-action scripts on 4 trees x 4 settings (reduced 12-action menu); '
+BOUNDS = {'quick': '19 trees x 19 settings x all 1-action scripts (29 actions); 2-action scripts on 4 trees x 4 settings (reduced 12-action menu); '
                    'search() as consumer on 6 trees',
           'thorough': '2-action scripts on all trees x 6 settings; 3-action scripts on 2 trees'}
 
